@@ -51,6 +51,8 @@ pub struct Ghost {
     pub rx_fd_call: usize, // index (1-based) of the receive call that carries the descriptors
     pub rx_calls: usize,
     pub blocked: bool,
+    pub eof_returns: usize, // how often end-of-stream (0 bytes on a closed stream) was reported to the receiver
+    pub eof_limit: usize,   // more reports than this = the receiver keeps polling a closed connection
     pub fds_discarded: usize, // descriptors the kernel dropped (no room / no control buffer)
     pub rx_big: usize,        // > 0: the peer attached this many descriptors (counted, not tracked one by one)
     pub big_open: usize,      // big-batch descriptors installed in this process
@@ -94,6 +96,8 @@ pub static mut G: Ghost = Ghost {
     rx_fd_call: 1,
     rx_calls: 0,
     blocked: false,
+    eof_returns: 0,
+    eof_limit: 2,
     fds_discarded: 0,
     rx_big: 0,
     big_open: 0,
@@ -269,6 +273,11 @@ pub unsafe fn ghost_recvmsg(_fd: RawFd, iovecs: &mut [iovec], in_fds: &mut [RawF
     if G.rx_pos >= G.rx_len {
         if !G.rx_closed {
             G.blocked = true;
+        } else {
+            // end-of-stream: a receiver that was told so must give up; a bounded number of reports per harness is
+            // legitimate (one per library call that finds the stream closed), more means it is polling a closed socket
+            G.eof_returns += 1;
+            assert!(G.eof_returns <= G.eof_limit, "C03/C08: the receiver keeps reading after end-of-stream was reported (no bounded-time error on a closed connection)");
         }
         return Ok((0, 0));
     }
